@@ -419,9 +419,18 @@ def _compress_tiles(
             return (src_data_name, 0, y, x)
         return (src_data_name, s, y, x)
 
+    # image is padded to a multiple of 2**nlevels, that can add whole tiles
+    # on the right/bottom for which there are no source blocks
+    yax = data.ndim - 2 if meta.axis == "SYX" else 0
+    nby, nbx = (len(ch) for ch in data.chunks[yax : yax + 2])
+    empty_block = np.zeros(
+        tuple(0 if yax <= ax < yax + 2 else n for ax, n in enumerate(data.chunksize)),
+        dtype=data.dtype,
+    )
+
     dsk: Any = {}
     for i, (s, y, x) in enumerate(meta.tidx(sample_idx)):
-        block = block_name(s, y, x)
+        block = block_name(s, y, x) if (y < nby and x < nbx) else empty_block
         dsk[name, i] = (_compress_cog_tile, encoder, block, quote((scale_idx, s, y, x)))
 
     nparts = len(dsk)
